@@ -135,7 +135,18 @@ def sim_args(spec, **kw):
     s = spec["sim"]
     args = dict(task_priority_rule=ns.TaskPriorityRuleMode(s["rule"]), absence_time_list=list(s["absence"]),
                 perform_auto_task_while_absence_time=bool(s["auto_flag"]), max_time=s["max_time"])
+    if s.get("rule_as_int"):
+        args["task_priority_rule"] = int(s["rule"])
     args.update(kw)
+    how = s.get("absence_as")
+    if how and isinstance(args.get("absence_time_list"), list):
+        a = args["absence_time_list"]
+        if how == "tuple":
+            args["absence_time_list"] = tuple(a)
+        elif how == "set":
+            args["absence_time_list"] = set(a)
+        elif how == "range" and a and sorted(a) == list(range(min(a), max(a) + 1)) and len(set(a)) == len(a):
+            args["absence_time_list"] = range(min(a), max(a) + 1)
     return args
 
 
@@ -144,6 +155,20 @@ def run(project, spec, **kw):
         warnings.simplefilter("ignore")
         project.simulate(**sim_args(spec, **kw))
     return project
+
+
+def declared_dependencies_missing(m, spec):
+    """The dependencies the spec declared that the built model does not hold (as (successor, predecessor, kind));
+    the monitors read the model's own lists, so a link that the library dropped at declaration would go unnoticed."""
+    ns = load()
+    out = []
+    for i, t in enumerate(spec["tasks"]):
+        for j, kind in t["deps"]:
+            succ, pred = m.tasks[i], m.tasks[j]
+            k = ns.BaseTaskDependency(kind)
+            if not any(p is pred and d == k for p, d in succ.input_task_list) or not any(s is succ and d == k for s, d in pred.output_task_list):
+                out.append((succ.ID, pred.ID, k.name))
+    return out
 
 
 def _l(x):
